@@ -352,10 +352,49 @@ mod generic_layer {
       if json["sub"] != "smoke subject" || json["answer"] != 42 {
         fail(concat!($label, " generic second token mismatch"));
       }
+      // every combination of the optional settings, not only "footer and assertion together": neither, footer only,
+      // assertion only (where the protocol has one) - built and read back with the same settings
+      {
+        let mut nb = GenericBuilder::<$V, $P>::default();
+        nb.set_claim(SubjectClaim::from("smoke subject"));
+        let t = ok!(nb.$build(&$sk), concat!($label, " generic build without footer or assertion"));
+        let mut np = GenericParser::<$V, $P>::default();
+        let json = ok!(np.parse(&t, &$pk), concat!($label, " generic parse without footer or assertion"));
+        if json["sub"] != "smoke subject" || t.split('.').count() != 3 {
+          fail(concat!($label, " generic round trip without footer or assertion mismatch"));
+        }
+        let mut fb = GenericBuilder::<$V, $P>::default();
+        fb.set_claim(SubjectClaim::from("smoke subject")).set_footer(Footer::from(FOOT));
+        let t = ok!(fb.$build(&$sk), concat!($label, " generic build with a footer only"));
+        let mut fp = GenericParser::<$V, $P>::default();
+        fp.set_footer(Footer::from(FOOT));
+        let json = ok!(fp.parse(&t, &$pk), concat!($label, " generic parse with a footer only"));
+        if json["sub"] != "smoke subject" {
+          fail(concat!($label, " generic round trip with a footer only mismatch"));
+        }
+        body!(@assertion_only $V, $P, $label, $build, $sk, $pk, $with_assertion);
+      }
       errors_are_ordinary::<GenericBuilderError>();
       errors_are_ordinary::<GenericParserError>();
       say(concat!("OK ", $label, " generic"));
     }};
+    (@assertion_only $V:ident, $P:ident, $label:literal, $build:ident, $sk:ident, $pk:ident, true) => {{
+      let mut ab = GenericBuilder::<$V, $P>::default();
+      ab.set_claim(SubjectClaim::from("smoke subject")).set_implicit_assertion(ImplicitAssertion::from(ASSERT));
+      let t = ok!(ab.$build(&$sk), concat!($label, " generic build with an implicit assertion only"));
+      let mut ap = GenericParser::<$V, $P>::default();
+      ap.set_implicit_assertion(ImplicitAssertion::from(ASSERT));
+      let json = ok!(ap.parse(&t, &$pk), concat!($label, " generic parse with an implicit assertion only"));
+      if json["sub"] != "smoke subject" {
+        fail(concat!($label, " generic round trip with an implicit assertion only mismatch"));
+      }
+      // and the assertion is bound: without it the token is refused
+      let mut np = GenericParser::<$V, $P>::default();
+      if np.parse(&t, &$pk).is_ok() {
+        fail(concat!($label, " generic: a token built with an implicit assertion was accepted without it"));
+      }
+    }};
+    (@assertion_only $V:ident, $P:ident, $label:literal, $build:ident, $sk:ident, $pk:ident, false) => {};
     (@assert_b $b:ident, true) => { $b.set_implicit_assertion(ImplicitAssertion::from(ASSERT)); };
     (@assert_b $b:ident, false) => {};
     (@assert_p $p:ident, true) => { $p.set_implicit_assertion(ImplicitAssertion::from(ASSERT)); };
@@ -445,10 +484,50 @@ mod prelude_layer {
           fail(concat!($label, " prelude: registered claims mismatch"));
         }
       }
+      {
+        // the optional settings one at a time
+        let mut nb = PasetoBuilder::<$V, $P>::default();
+        nb.set_claim(SubjectClaim::from("smoke subject"));
+        let t = ok!(nb.build(&$sk), concat!($label, " prelude build without footer or assertion"));
+        std::thread::sleep(std::time::Duration::from_millis(2));
+        let mut np = PasetoParser::<$V, $P>::default();
+        let json = ok!(np.parse(&t, &$pk), concat!($label, " prelude parse without footer or assertion"));
+        if json["sub"] != "smoke subject" {
+          fail(concat!($label, " prelude round trip without footer or assertion mismatch"));
+        }
+        let mut fb = PasetoBuilder::<$V, $P>::default();
+        fb.set_claim(SubjectClaim::from("smoke subject")).set_footer(Footer::from(FOOT));
+        let t = ok!(fb.build(&$sk), concat!($label, " prelude build with a footer only"));
+        std::thread::sleep(std::time::Duration::from_millis(2));
+        let mut fp = PasetoParser::<$V, $P>::default();
+        fp.set_footer(Footer::from(FOOT));
+        let json = ok!(fp.parse(&t, &$pk), concat!($label, " prelude parse with a footer only"));
+        if json["sub"] != "smoke subject" {
+          fail(concat!($label, " prelude round trip with a footer only mismatch"));
+        }
+        body!(@assertion_only $V, $P, $label, $sk, $pk, $with_assertion);
+      }
       errors_are_ordinary::<GenericBuilderError>();
       errors_are_ordinary::<GenericParserError>();
       say(concat!("OK ", $label, " prelude"));
     }};
+    (@assertion_only $V:ident, $P:ident, $label:literal, $sk:ident, $pk:ident, true) => {{
+      let mut ab = PasetoBuilder::<$V, $P>::default();
+      ab.set_claim(SubjectClaim::from("smoke subject")).set_implicit_assertion(ImplicitAssertion::from(ASSERT));
+      let t = ok!(ab.build(&$sk), concat!($label, " prelude build with an implicit assertion only"));
+      std::thread::sleep(std::time::Duration::from_millis(2));
+      let mut ap = PasetoParser::<$V, $P>::default();
+      ap.set_implicit_assertion(ImplicitAssertion::from(ASSERT));
+      let json = ok!(ap.parse(&t, &$pk), concat!($label, " prelude parse with an implicit assertion only"));
+      if json["sub"] != "smoke subject" {
+        fail(concat!($label, " prelude round trip with an implicit assertion only mismatch"));
+      }
+      let mut np = PasetoParser::<$V, $P>::default();
+      if np.parse(&t, &$pk).is_ok() {
+        fail(concat!($label, " prelude: a token built with an implicit assertion was accepted without it"));
+      }
+    }};
+    (@assertion_only $V:ident, $P:ident, $label:literal, $sk:ident, $pk:ident, false) => {};
     (@assert $b:ident, true) => { $b.set_implicit_assertion(ImplicitAssertion::from(ASSERT)); };
     (@assert $b:ident, false) => {};
   }
